@@ -160,6 +160,10 @@ def corpus():
     for sc in ("neg_mean_squared_error", "medae-loss"):
         cs.append({"fn": "splinecv", "kind": "corpus-splinecv-loss-scorer", "args": [coords[:2], data[0], None, [1e-3, 1e-1, 1e1], 3, sc],
                    "op": "splinecv_select [ [ 0 ] ]", "key": "corpus-splinecv:" + sc})
+    # data in small units, candidates listed with the heaviest damping first: error scores of order 1e-10 still pick the best, not the first
+    for sc, f_ in (("neg_mean_squared_error", 1e-4), ("neg_mean_absolute_error", 1e-7), ("medae-loss", 1e-7)):
+        cs.append({"fn": "splinecv", "kind": "corpus-splinecv-small-units", "args": [coords[:2], [v * f_ for v in data[0]], None, [1e1, 1e-3, 1e-1], 3, sc],
+                   "op": "splinecv_select [ [ 0 ] ]", "key": "splinecv-small-units-" + sc})
     cs.append({"fn": "splinecv", "kind": "corpus-splinecv-mindists", "args": [coords[:2], data[0], None, [1e-3, 1e1], 3, None, [0.0, 1.0, 4.0]],
                "op": "splinecv_select [ [ 0 ] ]", "key": "corpus-splinecv:mindists"})
     return cs
@@ -216,11 +220,19 @@ def generate(rng, tier):
                              "tts-block" if bs else "tts"))
         else:
             dampings = sorted(rng.sample([1e-4, 1e-3, 1e-2, 1e-1, 1.0, 10.0], rng.randint(2, 3)))
+            if rng.random() < 0.4:
+                dampings = dampings[::-1]      # (any order: the selection is by score, not by position)
             scoring = rng.choice(SCORERS + ["medae-loss", "neg_root_mean_squared_error"])
             mindists = None if rng.random() < 0.5 else sorted(rng.sample([0.0, 0.5, 2.0, 8.0], rng.randint(2, 3)))
+            d0 = data[0]
+            if rng.random() < 0.35:
+                # data in small units (metres for a millimetre signal): error scores of order 1e-9 .. 1e-12 still rank the candidates
+                f_ = rng.choice([1e-4, 1e-6])
+                d0 = [v * f_ for v in d0]
+                scoring = rng.choice(["neg_mean_squared_error", "neg_mean_absolute_error", "medae-loss"])
             cs.append({"fn": "splinecv", "kind": "splinecv" + ("" if scoring in (None, "r2") else "-loss-scorer") + ("-mindists" if mindists else ""),
-                       "args": [coords[:2], data[0], weights[0] if weights else None, dampings, rng.randint(2, 3), scoring, mindists],
-                       "op": "splinecv_select [ [ 0 ] ]", "key": repr((coords[:2], data[0], dampings, scoring, mindists))})
+                       "args": [coords[:2], d0, weights[0] if weights else None, dampings, rng.randint(2, 3), scoring, mindists],
+                       "op": "splinecv_select [ [ 0 ] ]", "key": repr((coords[:2], d0, dampings, scoring, mindists))})
     return cs
 
 
